@@ -144,6 +144,13 @@ fn glue(sink: &mut Sink, rng: &mut Rng, thorough: bool) {
     };
     // ---- ConfigBuilder: every setter with boundary arguments, chains of setters; accepted configurations of a
     //      buildable size are handed to CacheD::new and the shape of what it built is compared as well
+    // the defaults are tuning constants: read from the crate, handed to the model, and only required to be acceptable
+    let defaults = {
+        let (_, _, _, pool, buf, cmd, shards, tick) = ConfigBuilder::<u64, u64>::new(1, 1, 1).build().verif_fields();
+        (pool, buf, cmd, shards, tick.as_nanos())
+    };
+    emit(sink, format!("glue.defaults {} {} {} {} {}", defaults.0, defaults.1, defaults.2, defaults.3, defaults.4), "defaults ok".to_string());
+    let defaults_token = format!("d={},{},{},{},{}", defaults.0, defaults.1, defaults.2, defaults.3, defaults.4);
     let sizes = [0usize, 1, 2, 3, 4, 5, 6, 7, 8, 12, 16, 31, 32, 33, 64, 255, 256, 1 << 20, (1 << 20) + 1, usize::MAX];
     let mut chains: Vec<(u64, usize, i64, Vec<(String, u128)>)> = Vec::new();
     for counters in [0u64, 1, 2, 10] { for capacity in [0usize, 1, 10] { for weight in [i64::MIN, -1, 0, 1, 100, i64::MAX] {
@@ -180,9 +187,9 @@ fn glue(sink: &mut Sink, rng: &mut Rng, thorough: bool) {
             builder.build()
         }));
         match built {
-            Err(_) => emit(sink, format!("glue.builder {} {} {} | {}", counters, capacity, weight, text), "panic".to_string()),
+            Err(_) => emit(sink, format!("glue.builder {} {} {} {} | {}", defaults_token, counters, capacity, weight, text), "panic".to_string()),
             Ok(config) => {
-                emit(sink, format!("glue.builder {} {} {} | {}", counters, capacity, weight, text), fields(&config));
+                emit(sink, format!("glue.builder {} {} {} {} | {}", defaults_token, counters, capacity, weight, text), fields(&config));
                 let (counters, capacity, weight, pool, buf, cmd, shards, tick) = config.verif_fields();
                 // only configurations whose construction allocates a reasonable amount are built
                 if counters <= 4096 && capacity <= 4096 && pool <= 4096 && buf <= 4096 && cmd <= (1 << 20) && shards <= 4096 {
